@@ -97,30 +97,31 @@ ASYNC = ["NextAsync", "ResumeAwt"]
 def run(ctx):
     rp = vlib.compile_harness(vlib.VERIF + "/harness/generator_replay.cpp", "generator_replay", sanitize=not ctx.quick)
     q = ctx.quick
-    # (cfg, tag, with argument, modes, must_take, deeper constants for the thorough tier, quick path cap)
+    S3 = '{"sync", "coawait", "future"}'
+    # (cfg, tag, with argument, replay modes, constant overrides quick, constant overrides thorough); None = tier skips it
     jobs = [
-        ("Generator_noarg.cfg", "noarg", False, ["native", "coro"], COMMON + ASYNC,
-         {"MaxBody": 5, "MaxAcc": 5}, None),
-        ("Generator_arg.cfg", "arg", True, ["native", "coro"], COMMON + ASYNC,
-         {"MaxBody": 5, "MaxAcc": 5}, None),
-        ("Generator_thr.cfg", "thr", False, ["thr_late", "thr_early"], COMMON + ASYNC,
-         {"MaxAcc": 4, "MaxAfterEnd": 2}, None),
-        ("Generator_thr.cfg", "thrarg", True, ["thr_late", "thr_early"], COMMON + ASYNC,
-         {"MaxAcc": 4}, None),
+        ("Generator_noarg.cfg", "noarg", False, ["native", "coro"], {},
+         {"MaxBody": 5, "MaxAcc": 5, "MaxAfterEnd": 1}),
+        ("Generator_noarg.cfg", "noarg_deep", False, ["native", "coro"], None,
+         {"MaxBody": 6, "MaxAcc": 6, "MaxAfterEnd": 1, "Styles": S3, "BodyKinds": '{"yield", "apend", "throw", "return"}'}),
+        ("Generator_arg.cfg", "arg", True, ["native", "coro"], {},
+         {"MaxBody": 5, "MaxAcc": 5}),
+        ("Generator_thr.cfg", "thr", False, ["thr_late", "thr_early"], {},
+         {"MaxAcc": 4, "MaxAfterEnd": 2}),
+        ("Generator_thr.cfg", "thrarg", True, ["thr_late", "thr_early"],
+         {"WithArg": "TRUE", "Styles": S3, "BodyKinds": '{"yield", "ynull", "apend", "throw", "return"}'},
+         {"WithArg": "TRUE", "Styles": S3, "BodyKinds": '{"yield", "ynull", "apend", "throw", "return"}', "MaxAcc": 4}),
     ]
-    for (cfg, tag, witharg, modes, must, deep, cap) in jobs:
-        consts = {}
-        if tag == "thrarg":
-            consts.update({"WithArg": "TRUE", "Styles": '{"sync", "coawait", "future"}',
-                           "BodyKinds": '{"yield", "ynull", "apend", "throw", "return"}'})
-        if not q:
-            consts.update({k: str(v) for k, v in deep.items()})
+    for (cfg, tag, witharg, modes, cq, ct) in jobs:
+        consts = cq if q else ct
+        if consts is None:
+            continue
+        consts = {k: str(v) for k, v in consts.items()}
 
         def hdr(k, st0, witharg=witharg, modes=modes):
             return {"witharg": witharg, "modes": modes}
         replay(ctx, "Generator", "Generator", cfg, tag, rp, proj, header_fn=hdr, merge_re=MERGE,
-               must_take=must, constants=consts or None, max_paths=cap if q else None,
-               extra_random=0, replay_timeout=3000)
+               must_take=COMMON + ASYNC, constants=consts or None, replay_timeout=3000)
     ctx.assume("values are ints: the n-th co_yield yields n, the i-th access passes 100+i, the k-th awaited operation completes with k")
     ctx.assume("library preconditions respected by the history generator: no access while another one is outstanding, arguments "
                "are lvalues that outlive the access, ++ only on an iterator that is not at the end, it++ only on a dereferenceable "
